@@ -45,15 +45,19 @@ var c07Vars = map[string]c07Var{
 	"i3": {"int", 3}, "z": {"int", 0}, "i8": {"int", int8(-5)}, "u8": {"int", uint8(200)}, "big": {"int", int64(1) << 40},
 	"i16": {"int", int16(-300)}, "i32": {"int", int32(70000)}, "i64": {"int", int64(7)}, "u": {"int", uint(7)},
 	"u16": {"int", uint16(60000)}, "u32": {"int", uint32(3)}, "u64": {"int", uint64(7)},
+	// neighbours beyond 2^53 (float64 cannot tell them apart) and the int64 extremes
+	"h0": {"int", int64(9007199254740992)}, "h1": {"int", int64(9007199254740993)}, "imax": {"int", int64(9223372036854775807)}, "imin": {"int", int64(-9223372036854775808)},
+	// a divisor that is tiny but not zero
+	"tiny": {"float", 5e-10}, "ntiny": {"float", -2.5e-12},
 	"f": {"float", 2.5}, "fz": {"float", 0.0}, "f32": {"fnoeq", float32(0.5)},
 	"s": {"str", "ab"}, "e": {"str", ""}, "t": {"bool", true}, "fl": {"bool", false},
 	"il": {"ilist", []int{1, 2, 3}}, "sl": {"slist", []string{"a", "b", ""}}, "el": {"ilist", []int{}},
 	"sm": {"smap", map[string]int{"a": 1, "ab": 0, "": 2}}, "im": {"imap", map[int]string{1: "x", 3: "", 0: "z"}}, "em": {"smap", map[string]int{}},
 }
 
-var c07IntVars = []string{"i3", "z", "i8", "u8", "big", "i16", "i32", "i64", "u", "u16", "u32", "u64"}
+var c07IntVars = []string{"i3", "z", "i8", "u8", "big", "i16", "i32", "i64", "u", "u16", "u32", "u64", "h0", "h1", "imax", "imin"}
 
-var c07VarNames = []string{"i3", "z", "i8", "u8", "big", "i16", "i32", "i64", "u", "u16", "u32", "u64", "f", "fz", "f32", "s", "e", "t", "fl", "il", "sl", "el"}
+var c07VarNames = []string{"i3", "z", "i8", "u8", "big", "i16", "i32", "i64", "u", "u16", "u32", "u64", "h0", "h1", "imax", "imin", "tiny", "ntiny", "f", "fz", "f32", "s", "e", "t", "fl", "il", "sl", "el"}
 
 func c07Context() pongo2.Context {
 	ctx := pongo2.Context{}
@@ -689,7 +693,7 @@ func genLeaf(t *rapid.T, want string) *Ex {
 		if drawBool(t, "lit") {
 			return &Ex{Op: "lit", T: "float", Lit: strconv.Itoa(drawInt(t, 0, 9, "ip")) + "." + pick(t, "fp", []string{"0", "5", "25", "75", "125"})}
 		}
-		return &Ex{Op: "var", T: "float", Name: pick(t, "fv", []string{"f", "fz"})}
+		return &Ex{Op: "var", T: "float", Name: pick(t, "fv", []string{"f", "fz", "f", "fz", "tiny", "ntiny"})}
 	case "fnoeq":
 		return &Ex{Op: "var", T: "fnoeq", Name: "f32"}
 	case "str":
